@@ -2,7 +2,7 @@
 C25 helper lemmas, part 2: feeding a group / an entry, and the leader loop (`pump`).
 -/
 import RqModel.Lemmas.Cdc
-namespace RqModel.Cdc
+namespace RqModel.CdcPipe
 open RqModel.Fifo
 
 /-! ### writeToBatcher + size trigger -/
@@ -310,4 +310,4 @@ theorem pump_good (fuel : Nat) (s : St) (f : Nat) (hb : Base s f) (hc : Cov s f)
 theorem pumpAll_good (s : St) (f : Nat) (hb : Base s f) (hc : Cov s f) :
     Base (pumpAll s) f ∧ Cov (pumpAll s) f := pump_good _ s f hb hc
 
-end RqModel.Cdc
+end RqModel.CdcPipe
